@@ -100,6 +100,8 @@ type TS struct { // term store (one per worker)
 	True    *Term
 	False   *Term
 	nvars   int
+	varRange  map[uint32]urange
+	rangeMemo map[uint32]urange
 }
 
 func NewTS() *TS {
@@ -455,9 +457,91 @@ func (ts *TS) And(a, b *Term) *Term {
 	}
 	return ts.bin(OAnd, a, b)
 }
+type bitPiece struct {
+	t   *Term
+	off uint8
+}
+
+// bitPieces decomposes t into terms placed at bit offsets (zero elsewhere), if t has that shape.
+func (ts *TS) bitPieces(t *Term, off uint8, out *[]bitPiece, depth int) bool {
+	if depth > 16 {
+		return false
+	}
+	switch t.Op {
+	case OConst:
+		if t.K == 0 {
+			return true
+		}
+		return false
+	case OZExt:
+		return ts.bitPieces(t.A, off, out, depth+1)
+	case OShl:
+		if t.B.Op == OConst && t.B.K < uint64(t.W) {
+			// bits shifted out must be known zero: require the operand to be a zero-extension that fits
+			if t.A.Op == OZExt && uint64(t.A.A.W)+t.B.K <= uint64(t.W) {
+				return ts.bitPieces(t.A.A, off+uint8(t.B.K), out, depth+1)
+			}
+		}
+		return false
+	case OConcat:
+		return ts.bitPieces(t.B, off, out, depth+1) && ts.bitPieces(t.A, off+t.B.W, out, depth+1)
+	case OOr:
+		return ts.bitPieces(t.A, off, out, depth+1) && ts.bitPieces(t.B, off, out, depth+1)
+	}
+	*out = append(*out, bitPiece{t, off})
+	return true
+}
+
+func placedShape(t *Term) bool {
+	return t.Op == OShl || t.Op == OConcat || (t.Op == OZExt && t.A.Op != OVar)
+}
+
+func (ts *TS) orPieces(a, b *Term) *Term {
+	var ps []bitPiece
+	if !ts.bitPieces(a, 0, &ps, 0) || !ts.bitPieces(b, 0, &ps, 0) || len(ps) < 2 {
+		return nil
+	}
+	// sort by offset, check disjointness
+	for i := 1; i < len(ps); i++ {
+		for j := i; j > 0 && ps[j-1].off > ps[j].off; j-- {
+			ps[j-1], ps[j] = ps[j], ps[j-1]
+		}
+	}
+	pos := uint8(0)
+	var r *Term
+	for _, p := range ps {
+		if p.off < pos {
+			return nil
+		}
+		if p.off > pos {
+			z := ts.Const(p.off-pos, 0)
+			if r == nil {
+				r = z
+			} else {
+				r = ts.Concat(z, r)
+			}
+		}
+		if r == nil {
+			r = p.t
+		} else {
+			r = ts.Concat(p.t, r)
+		}
+		pos = p.off + p.t.W
+	}
+	if pos > a.W {
+		return nil
+	}
+	return ts.ZExt(r, a.W)
+}
+
 func (ts *TS) Or(a, b *Term) *Term {
 	if a.Op == OConst && b.Op == OConst {
 		return ts.Const(a.W, a.K|b.K)
+	}
+	if a.Op != OConst && b.Op != OConst && (placedShape(a) || placedShape(b)) {
+		if r := ts.orPieces(a, b); r != nil {
+			return r
+		}
 	}
 	if a.Op == OConst {
 		a, b = b, a
@@ -626,6 +710,12 @@ func (ts *TS) ZExt(a *Term, w uint8) *Term {
 	if a.Op == OIte && a.B.Op == OConst && a.C.Op == OConst {
 		return ts.Ite(a.A, ts.ZExt(a.B, w), ts.ZExt(a.C, w))
 	}
+	// zext(trunc(x)) == x when x provably fits (value ranges)
+	if a.Op == OExtract && a.K == 0 && a.A.W == w {
+		if r := ts.rangeOf(a.A); r.ok && r.hi <= mask(a.W) {
+			return a.A
+		}
+	}
 	return ts.mk(&Term{Op: OZExt, W: w, A: a})
 }
 
@@ -645,6 +735,15 @@ func (ts *TS) SExt(a *Term, w uint8) *Term {
 	if a.Op == OZExt {
 		return ts.ZExt(a.A, w)
 	}
+	// sext(trunc(x)) == x when x provably fits (value ranges)
+	if a.Op == OExtract && a.K == 0 && a.A.W == w {
+		if r := ts.rangeOf(a.A); r.ok && r.hi < (uint64(1)<<(a.W-1)) {
+			return a.A
+		}
+	}
+	if r := ts.rangeOf(a); r.ok && r.hi < (uint64(1)<<(a.W-1)) {
+		return ts.ZExt(a, w)
+	}
 	if a.Op == OIte && (a.B.Op == OConst || a.B.Op == OIte) && (a.C.Op == OConst || a.C.Op == OIte) {
 		return ts.Ite(a.A, ts.SExt(a.B, w), ts.SExt(a.C, w))
 	}
@@ -654,6 +753,19 @@ func (ts *TS) SExt(a *Term, w uint8) *Term {
 func (ts *TS) Concat(hi, lo *Term) *Term {
 	if hi.Op == OConst && lo.Op == OConst {
 		return ts.Const(hi.W+lo.W, hi.K<<lo.W|lo.K)
+	}
+	if hi.Op == OConst && hi.K == 0 {
+		return ts.ZExt(lo, hi.W+lo.W)
+	}
+	// adjacent extracts of the same term merge
+	if hi.Op == OExtract && lo.Op == OExtract && hi.A == lo.A && hi.K == lo.K+uint64(lo.W) {
+		return ts.Extract(hi.A, uint8(lo.K), hi.W+lo.W)
+	}
+	if hi.Op == OExtract && lo.Op == OConcat && lo.A.Op == OExtract && hi.A == lo.A.A && hi.K == lo.A.K+uint64(lo.A.W) {
+		return ts.Concat(ts.Extract(hi.A, uint8(lo.A.K), hi.W+lo.A.W), lo.B)
+	}
+	if hi.Op == OExtract && hi.K == uint64(lo.W) && hi.A == lo && false {
+		return lo
 	}
 	return ts.mk(&Term{Op: OConcat, W: hi.W + lo.W, A: hi, B: lo})
 }
@@ -718,6 +830,9 @@ func (ts *TS) Eq(a, b *Term) *Term {
 	if d, ok := diffConst(a, b); ok {
 		return ts.Bool(d == 0)
 	}
+	if a.W >= 8 && ts.neByRange(a, b) {
+		return ts.False
+	}
 	if a.Op == OConst {
 		a, b = b, a
 	}
@@ -766,6 +881,19 @@ func (ts *TS) Ult(a, b *Term) *Term {
 	if a.Op == OZExt && b.Op == OZExt && a.A.W == b.A.W {
 		return ts.Ult(a.A, b.A)
 	}
+	switch ts.ultByRange(a, b) {
+	case 1:
+		return ts.True
+	case 0:
+		return ts.False
+	}
+	// a < b with a common symbolic base and no wrap: compare the constant parts
+	if d, ok := diffConst(a, b); ok {
+		ra, rb := ts.rangeOf(a), ts.rangeOf(b)
+		if ra.ok && rb.ok {
+			return ts.Bool(d < 0)
+		}
+	}
 	if b.Op == OConst && a.Op == OIte && (a.B.Op == OConst || a.C.Op == OConst) {
 		return ts.Ite(a.A, ts.Ult(a.B, b), ts.Ult(a.C, b))
 	}
@@ -781,6 +909,13 @@ func (ts *TS) Slt(a, b *Term) *Term {
 	}
 	if a.Op == OConst && b.Op == OConst {
 		return ts.Bool(a.SVal() < b.SVal())
+	}
+	if a.W >= 8 {
+		ra, rb := ts.rangeOf(a), ts.rangeOf(b)
+		half := uint64(1) << (a.W - 1)
+		if ra.ok && rb.ok && ra.hi < half && rb.hi < half {
+			return ts.Ult(a, b)
+		}
 	}
 	if a.Op == OZExt && b.Op == OZExt && a.A.W == b.A.W {
 		return ts.Ult(a.A, b.A)
@@ -986,4 +1121,160 @@ func (ts *TS) Select(a *Arr, i *Term) *Term {
 	}
 	ts.selMemo[key] = r
 	return r
+}
+
+// ---------------------------------------------------------------- unsigned value ranges
+//
+// Variables introduced by zzInt(name, lo, hi) with constant non-negative bounds carry their
+// range (the assumption lo <= v <= hi is added to the path condition whenever such a variable is
+// created, and the variable's name encodes the bounds, so the range is valid wherever the variable
+// occurs). Ranges propagate through +, -, * const, zero extension and ite, and let offset
+// comparisons be decided without the solver.
+
+type urange struct {
+	lo, hi uint64
+	ok     bool
+}
+
+func (ts *TS) SetVarRange(v *Term, lo, hi uint64) {
+	if ts.varRange == nil {
+		ts.varRange = map[uint32]urange{}
+	}
+	ts.varRange[v.id] = urange{lo, hi, true}
+}
+
+const rangeCap = uint64(1) << 62
+
+func (ts *TS) rangeOf(t *Term) urange {
+	if t.W == 0 {
+		return urange{}
+	}
+	if t.Op == OConst {
+		return urange{t.K, t.K, true}
+	}
+	if ts.rangeMemo == nil {
+		ts.rangeMemo = map[uint32]urange{}
+	}
+	if r, ok := ts.rangeMemo[t.id]; ok {
+		return r
+	}
+	r := ts.rangeCompute(t)
+	if r.ok && (r.hi > mask(t.W) || r.lo > r.hi) {
+		r = urange{}
+	}
+	if !r.ok && t.W < 62 {
+		r = urange{0, mask(t.W), true}
+	}
+	ts.rangeMemo[t.id] = r
+	return r
+}
+
+func (ts *TS) rangeCompute(t *Term) urange {
+	switch t.Op {
+	case OVar:
+		if r, ok := ts.varRange[t.id]; ok {
+			return r
+		}
+	case OZExt:
+		r := ts.rangeOf(t.A)
+		if r.ok {
+			return r
+		}
+		return urange{0, mask(t.A.W), true}
+	case OAdd:
+		a, b := ts.rangeOf(t.A), ts.rangeOf(t.B)
+		if a.ok && b.ok && a.hi < rangeCap && b.hi < rangeCap && a.hi+b.hi <= mask(t.W) {
+			return urange{a.lo + b.lo, a.hi + b.hi, true}
+		}
+	case OSub:
+		a, b := ts.rangeOf(t.A), ts.rangeOf(t.B)
+		if a.ok && b.ok && a.lo >= b.hi {
+			return urange{a.lo - b.hi, a.hi - b.lo, true}
+		}
+	case OMul:
+		if t.B.Op == OConst {
+			a := ts.rangeOf(t.A)
+			if a.ok && a.hi < rangeCap && t.B.K < (1<<20) && a.hi*t.B.K <= mask(t.W) && a.hi < (1<<40) {
+				return urange{a.lo * t.B.K, a.hi * t.B.K, true}
+			}
+		}
+	case OShl:
+		if t.B.Op == OConst && t.B.K < 20 {
+			a := ts.rangeOf(t.A)
+			if a.ok && a.hi < (1<<40) && a.hi<<t.B.K <= mask(t.W) {
+				return urange{a.lo << t.B.K, a.hi << t.B.K, true}
+			}
+		}
+	case OLShr:
+		if t.B.Op == OConst && t.B.K < 64 {
+			a := ts.rangeOf(t.A)
+			if a.ok {
+				return urange{a.lo >> t.B.K, a.hi >> t.B.K, true}
+			}
+		}
+	case OIte:
+		a, b := ts.rangeOf(t.B), ts.rangeOf(t.C)
+		if a.ok && b.ok {
+			lo, hi := a.lo, a.hi
+			if b.lo < lo {
+				lo = b.lo
+			}
+			if b.hi > hi {
+				hi = b.hi
+			}
+			return urange{lo, hi, true}
+		}
+	case OAnd:
+		if t.B.Op == OConst {
+			return urange{0, t.B.K, true}
+		}
+	case OURem:
+		if t.B.Op == OConst && t.B.K > 0 {
+			return urange{0, t.B.K - 1, true}
+		}
+	case OExtract:
+		if t.K == 0 {
+			a := ts.rangeOf(t.A)
+			if a.ok && a.hi <= mask(t.W) {
+				return a
+			}
+		}
+	case OConcat:
+		if t.A.Op == OConst && t.A.K == 0 {
+			return ts.rangeOf(t.B)
+		}
+	case OSExt:
+		a := ts.rangeOf(t.A)
+		if a.ok && a.hi < (uint64(1) << (t.A.W - 1)) {
+			return a
+		}
+	}
+	return urange{}
+}
+
+// cmpRanges decides a < b (unsigned) from ranges: 1 true, 0 false, -1 unknown
+func (ts *TS) ultByRange(a, b *Term) int {
+	ra, rb := ts.rangeOf(a), ts.rangeOf(b)
+	if !ra.ok || !rb.ok {
+		return -1
+	}
+	if ra.hi < rb.lo {
+		return 1
+	}
+	if ra.lo >= rb.hi {
+		return 0
+	}
+	return -1
+}
+
+func (ts *TS) neByRange(a, b *Term) bool {
+	ra, rb := ts.rangeOf(a), ts.rangeOf(b)
+	return ra.ok && rb.ok && (ra.hi < rb.lo || rb.hi < ra.lo)
+}
+
+// RawUle builds a <= b without range-based simplification (used to assert the very bounds the
+// ranges are derived from).
+func (ts *TS) RawUle(a, b *Term) *Term {
+	lt := ts.mk(&Term{Op: OUlt, W: 0, A: b, B: a})
+	return ts.mk(&Term{Op: OBNot, W: 0, A: lt})
 }
